@@ -194,6 +194,27 @@ PROPS = {
         "exhaustive_part": {"quick": "the full constructor table for 12 (mode, year type) pairs", "thorough": "the full table for 40 (mode, year) pairs"},
         "assumptions": TRUST,
     },
+    "C10": {
+        "technique": "TLA+ duration notation (Text.tla DurText / DurTextValue) + TLC trace validation of text->value, value->text->value and alternative-spelling events",
+        "level_text": "Designator texts are rendered from generation records (each unit absent/zero/present, decimals on the last time unit with "
+                      "comma or point, weeks form, leading '-'); TLC re-renders the text, computes the value the designators denote and requires "
+                      "the parsed Duration to be that value, parse(str(d)) == d and str to be a fixpoint; single-signed Duration objects make the "
+                      "same round trip; the alternative P[YYYY]-[MM]-[DD]T[hh]:[mm]:[ss] spelling (basic/extended, calendar/ordinal) must parse to the same duration as its designator spelling.",
+        "drivers": ["c10"], "mc": [], "expect_ops": ["DurParse", "DurObj", "DurAlt"],
+        "rule": "one case = one duration text or object; all non-trivial",
+        "assumptions": TRUST,
+    },
+    "C17": {
+        "technique": "TLA+ POSIX rendering (Text.tla StrfText over Cal.tla civil dates) + TLC trace validation of strftime output and strptime inversion",
+        "level_text": "For points of all three representations and any offset, in every year 0001-9998 (swept) and random formats over the supported "
+                      "directives and literal text, TLC renders what POSIX strftime gives for the civil date-time (via the calendar definition, "
+                      "whatever the representation; %s as the Unix time on the timeline) and requires the library's text to be identical; strptime "
+                      "of that text must recover the date/time/offset the format determines (defaults otherwise); unsupported %-letters must be refused with a ValueError-derived error.",
+        "drivers": ["c17"], "mc": [], "expect_ops": ["Strf", "Strp"],
+        "rule": "one case = one (point, format); all non-trivial (week-date points near week-year edges, day-of-year, negative-minute offsets)",
+        "exhaustive_part": {"quick": "every year 0001-9998 once", "thorough": "every year 0001-9998 three times"},
+        "assumptions": TRUST,
+    },
     "C03": {
         "technique": "TLA+ calendar definition (Cal.tla) model-checked with TLC (+ Apalache lemmas) and TLC trace validation of every conversion row of the real helpers",
         "level_text": "Cal.tla is the proleptic definition; TLC checks it is self-consistent (inverse pairs, week rule, lengths) on every day "
